@@ -172,7 +172,11 @@ fn trigger_deserialize<'a, E>(
     message: &mut Bytes,
     deserialize: EventDeserializeFn<ServerReceiveCtx<'a>, E>,
 ) -> Result<ClientTriggerEvent<E>> {
-    let len = postcard_utils::from_buf(message)?;
+    let len: usize = postcard_utils::from_buf(message)?;
+    if len > message.len() {
+        // Each entity takes at least one byte, don't trust the length from a remote peer.
+        return Err("number of trigger targets exceeds the message size".into());
+    }
     let mut targets = Vec::with_capacity(len);
     for _ in 0..len {
         let entity = entity_serde::deserialize_entity(message)?;
